@@ -776,6 +776,29 @@ pub fn run_c13(seed: u64, n: usize, out: &mut Out) {
         out.case_id("fm", &format!("c13-{}", id), &case, &ans);
         id += 1;
     }
+    // the two `with` helpers of util::parse_expr, on every item form (they are not FromMeta impls)
+    use crate::vals::Canon;
+    for m in &metas {
+        for (which, f) in [
+            ("preserve", darling::util::parse_expr::preserve_str_literal as fn(&Meta) -> darling::Result<syn::Expr>),
+            ("parse", darling::util::parse_expr::parse_str_literal as fn(&Meta) -> darling::Result<syn::Expr>),
+        ] {
+            // an invisible group around the whole value is not part of the printed expression
+            // (the mirror's `Expr.toks` of a group is its contents' tokens)
+            fn peel(e: syn::Expr) -> syn::Expr {
+                match e {
+                    syn::Expr::Group(g) => peel(*g.expr),
+                    e => e,
+                }
+            }
+            let ans = crate::vals::answer(std::panic::catch_unwind(|| f(m).map(peel)));
+            let case = tagged("helper", vec![atom(which), tagged("meta", vec![ser::meta(m)]), oracle_with(m, &["Expr"])]);
+            out.stat("helper_cases", 1);
+            out.case_id("fm", &format!("c13-{}", id), &case, &ans);
+            id += 1;
+        }
+    }
+    let _ = <syn::Expr as Canon>::canon;
 }
 
 // ---------------------------------------------------------------- C14
